@@ -8,6 +8,7 @@
      5  check_param            (5 (list (p l u)))
      6  parameter vector -> Model (6 nvar aniso samerot chars parids vals covas0)
      9  constant sill, diagonal term (9 cons xr srm)
+    11  constant-sill constraint   (11 value sills nvar1 nvar2)
      7  one Goulard step       (7 n cc lam V)
      8  angles imposed by equality constraints (8 icov items parids angles) *)
 From Coq Require Import List Arith ZArith QArith Qabs Bool.
@@ -199,6 +200,16 @@ Definition run (c : sx) : sx :=
   | L [I 8%Z; ic; its; ps; an] =>
       match asZ ic, asListOf asItem its, asListOf asParid ps, asQL an with
       | Some icov, Some items, Some ps', Some angles => L (map ofQ (imposed_angles items ps' icov angles))
+      | _, _, _, _ => sx_error 1
+      end
+  | L [I 11%Z; vl; sl; n1; n2] =>
+      match asOQ vl, asListOf asOQ sl, asNat n1, asNat n2 with
+      | Some value, Some sills, Some nvar1, Some nvar2 =>
+          let c0 := mkCS value sills in
+          let c1 := expand_constant_sill nvar1 c0 in
+          let c2 := expand_constant_sill nvar2 c1 in
+          L [ofB (is_constraint_sill_defined c0); L (map ofOQ (cs_sills c1)); L (map ofOQ (cs_sills c2));
+             match fit_cons_sill nvar1 c0 with None => L [] | Some l => L [L (map ofOQ l)] end]
       | _, _, _, _ => sx_error 1
       end
   | _ => sx_error 0
